@@ -1,5 +1,201 @@
-//! Concurrent mode (placeholder, filled in below).
-use kharness::Args;
-pub fn main(_args: &Args) {
-    unimplemented!()
+//! Concurrent mode of the `aggstore` stream (`--conc`).
+//!
+//! Several threads send commands, reads and snapshot requests to the same and to different
+//! entities through two store objects on one storage, with the cfg-gated event-log / yield
+//! points of `krill::verif::lockpoint` switched on (they sit at the lock acquisition and
+//! release of `KeyValueStore::execute` and at every storage operation, i.e. *inside* the
+//! critical section, so a lock that does not exclude shows up within a few schedules).
+//!
+//! Nothing is compared with a fixed order.  After the threads have finished the harness
+//! * prints the calls **in the observed lock-acquisition order** with the result each caller
+//!   got; the Lean driver replays them serially on the model and must reproduce every result,
+//! * prints, per entity, the event log (`conclog <h> => ev=<thread>:<acq|rel|site>,…`); the
+//!   driver's oracle checks it is well bracketed (`Sys.wellBracketed`),
+//! * runs `check <h>` / `hist`, so that the stored keys and records are compared with the
+//!   model's serial log and the oracle checks that every acknowledged command is present
+//!   exactly once (`audit_exact`).
+
+use std::io::Write;
+use std::sync::{Arc, Barrier};
+use kharness::{Args, Rng};
+use krill::verif::lockpoint;
+use crate::bag::{BagCmd, BagKind};
+use crate::reg::{RegCmd, RegDetails};
+use crate::{fmt_reg, handle, Sys};
+
+#[derive(Clone, Debug)]
+struct Call {
+    /// the op line (without observation)
+    line: String,
+    /// handle the call locks
+    h: String,
+}
+
+struct Done {
+    thread: u32,
+    op: u64,
+    call: Call,
+    ret: String,
+}
+
+fn gen_program(rng: &mut Rng, tid: u32, len: usize, handles: &[&str], wal: bool) -> Vec<Call> {
+    let mut v = Vec::new();
+    for k in 0..len {
+        let h = if rng.chance(3, 4) { handles[0] } else { handles[rng.below(handles.len() as u64) as usize] };
+        let actor = format!("t{tid}o{k}");
+        let inst = if rng.chance(3, 4) { 0 } else { 1 };
+        let line = match rng.below(100) {
+            0..=54 => {
+                let c = match rng.below(100) {
+                    0..=39 => format!("add {}", rng.below(4)),
+                    40..=54 => format!("sub {}", rng.below(3)),
+                    55..=69 => format!("name n{}", rng.below(2)),
+                    70..=79 => format!("multi {}", rng.below(3)),
+                    80..=89 => "fail".to_string(),
+                    _ => format!("guarded {}", rng.below(4)),
+                };
+                format!("cmd {inst} {h} {actor} {c}")
+            }
+            55..=69 => format!("get {inst} {h}"),
+            70..=77 => format!("snap 1 {h}"),
+            _ if wal => {
+                let c = match rng.below(10) {
+                    0..=4 => format!("put {}", rng.below(5)),
+                    5..=7 => format!("del {}", rng.below(5)),
+                    8 => "clear".to_string(),
+                    _ => "fail".to_string(),
+                };
+                v.push(Call { line: format!("wcmd 0 w {c}"), h: "w".into() });
+                continue;
+            }
+            _ => format!("get 0 {h}"),
+        };
+        v.push(Call { line, h: h.to_string() });
+    }
+    v
+}
+
+fn run_call<const IV: u64>(sys: &Sys<IV>, call: &Call) -> String {
+    let w: Vec<&str> = call.line.split_whitespace().collect();
+    match w.as_slice() {
+        ["cmd", i, h, actor, kind, rest @ ..] => {
+            let details = RegDetails::parse(kind, rest.first().copied()).expect("cmd");
+            let i: usize = i.parse().unwrap();
+            fmt_reg(sys.stores[i].command(RegCmd { handle: handle(h), actor: actor.to_string(), details }))
+        }
+        ["get", i, h] => {
+            let i: usize = i.parse().unwrap();
+            fmt_reg(sys.stores[i].get_latest(&handle(h)))
+        }
+        ["snap", i, h] => {
+            let i: usize = i.parse().unwrap();
+            fmt_reg(sys.stores[i].save_snapshot(&handle(h)))
+        }
+        ["wcmd", i, h, kind, rest @ ..] => {
+            let kind = BagKind::parse(kind, rest.first().copied()).expect("wcmd");
+            let i: usize = i.parse().unwrap();
+            crate::fmt_bag(sys.wstores[i].send_command(BagCmd { handle: handle(h), kind }))
+        }
+        _ => panic!("conc: unknown call {}", call.line),
+    }
+}
+
+fn case<const IV: u64>(out: &mut dyn Write, disk: bool, seed: u64, rng: &mut Rng, threads: usize, len: usize) {
+    let mut sys = Sys::<IV>::new(disk, seed);
+    writeln!(out, "config iv={} backend={} => ret=ok", IV, if disk { "disk" } else { "mem" }).unwrap();
+    let emit = |out: &mut dyn Write, sys: &mut Sys<IV>, op: &str| {
+        let obs = sys.exec(op);
+        writeln!(out, "{op} => {obs}").unwrap();
+    };
+    // sequential set-up
+    emit(out, &mut sys, "add 0 a init n0");
+    emit(out, &mut sys, "add 0 b init n1");
+    emit(out, &mut sys, "wadd 0 w -");
+    if rng.chance(1, 2) {
+        emit(out, &mut sys, "cmd 0 a setup add 2");
+    }
+    let programs: Vec<Vec<Call>> =
+        (0..threads).map(|t| gen_program(&mut rng.fork(), t as u32 + 1, len, &["a", "b"], true)).collect();
+    let sys = Arc::new(sys);
+    let barrier = Arc::new(Barrier::new(threads));
+    lockpoint::enable(true);
+    let mut joins = Vec::new();
+    for (t, prog) in programs.into_iter().enumerate() {
+        let sys = sys.clone();
+        let barrier = barrier.clone();
+        let tseed = rng.next();
+        joins.push(std::thread::spawn(move || {
+            let tid = t as u32 + 1;
+            lockpoint::set_thread(Some(tid), tseed);
+            barrier.wait();
+            let mut done = Vec::new();
+            for (k, call) in prog.into_iter().enumerate() {
+                let op = tid as u64 * 100_000 + k as u64;
+                lockpoint::set_op(op);
+                let ret = run_call::<IV>(&sys, &call);
+                done.push(Done { thread: tid, op, call, ret });
+            }
+            lockpoint::set_thread(None, 0);
+            done
+        }));
+    }
+    let mut done: Vec<Done> = Vec::new();
+    for j in joins {
+        done.extend(j.join().expect("thread"));
+    }
+    lockpoint::enable(false);
+    let log = lockpoint::take_log();
+    // position of each call's lock acquisition
+    let mut pos: Vec<(usize, usize)> = Vec::new(); // (log index, index into done)
+    for (di, d) in done.iter().enumerate() {
+        let acqs: Vec<usize> = log
+            .iter()
+            .enumerate()
+            .filter(|(_, e)| e.thread == d.thread && e.op == d.op && e.site == "acq" && e.scope.as_deref() == Some(d.call.h.as_str()))
+            .map(|(i, _)| i)
+            .collect();
+        if acqs.len() != 1 {
+            writeln!(out, "concerr thread={} op={} acquisitions={} call={}", d.thread, d.op, acqs.len(), d.call.line.replace(' ', "_")).unwrap();
+            continue;
+        }
+        pos.push((acqs[0], di));
+    }
+    pos.sort();
+    for (_, di) in &pos {
+        let d = &done[*di];
+        writeln!(out, "{} => ret={}", d.call.line, d.ret).unwrap();
+    }
+    for h in ["a", "b", "w"] {
+        let evs: Vec<String> = log
+            .iter()
+            .filter(|e| e.scope.as_deref() == Some(h) && e.site != "wait")
+            .map(|e| format!("{}:{}", e.thread, e.site))
+            .collect();
+        writeln!(out, "conclog {h} => ev={}", if evs.is_empty() { "-".to_string() } else { evs.join(",") }).unwrap();
+    }
+    let mut sys = Arc::try_unwrap(sys).ok().expect("sole owner");
+    for op in ["check a", "check b", "wcheck w", "hist 0 a 0 - -", "hist 1 b 0 - -"] {
+        emit(out, &mut sys, op);
+    }
+}
+
+pub fn main(args: &Args) {
+    let mut out = args.writer();
+    let mut rng = Rng::new(args.seed ^ 0xC0C0);
+    let thorough = args.tier == "thorough";
+    for i in 0..args.n {
+        let disk = i % 2 == 1;
+        let iv0 = i % 5 == 4;
+        let mut r = rng.fork();
+        let threads = if thorough { 2 + r.below(5) as usize } else { 2 + r.below(3) as usize };
+        let len = 1 + r.below(args.len as u64) as usize;
+        let seed = args.seed.wrapping_mul(1_000_003) + i as u64;
+        writeln!(out, "case c{}-{}-{}-iv{}-t{}", args.seed, i, if disk { "disk" } else { "mem" }, if iv0 { 0 } else { 1 }, threads).unwrap();
+        if iv0 {
+            case::<0>(&mut *out, disk, seed, &mut r, threads, len);
+        } else {
+            case::<1>(&mut *out, disk, seed, &mut r, threads, len);
+        }
+    }
+    out.flush().unwrap();
 }
